@@ -135,7 +135,7 @@ func fresh(inc *Incarnation, it *Item) bool {
 		return true
 	}
 	if it.Kind == kVote {
-		if at, ok := inc.claims[claimKey(it.R, it.Type, it.Vote.BlockID.Key())]; ok && inc.deliveredStep[it.ID] < at && inc.delivered[it.ID] < 3 {
+		if at, ok := inc.claims[it.ckey]; ok && inc.deliveredStep[it.ID] < at && inc.delivered[it.ID] < 3 {
 			return true
 		}
 	}
@@ -410,6 +410,11 @@ func (w *World) Deliver(nd *Node, it *Item, from int) {
 	})
 	if recovered {
 		w.Probes.Inc("receive_panic_recovered")
+		for id, p := range inc.peers {
+			if p == peer {
+				w.reconnect(inc, id)
+			}
+		}
 	}
 	if !ok && inc.Alive() {
 		// Receive blocks while the peer queue is full; that is back-pressure, not a wedge,
@@ -527,7 +532,7 @@ func (w *World) onNodeDeath(nd *Node, inc *Incarnation) {
 	w.Probes.Inc("node_panic")
 	key := panicKey(inc.panicVal, inc.panicStk)
 	prop := "C12"
-	if w.lastActionUntrusted() {
+	if inc.untrusted > 0 {
 		prop = "C08"
 	}
 	w.violate(prop, "node-panic", key, "node %d panicked on goroutine %s: %s", nd.id, inc.panicSite, truncStr(inc.panicVal, 300))
